@@ -622,9 +622,13 @@ func (h *c04Hist) client(cl int, r *rand.Rand) {
 			dump := ""
 			if first {
 				waitQuiet(h.s, 2*time.Second, 6*time.Second)
-				dump = h.s.DumpGoroutines()
+				for _, blk := range strings.Split(h.s.DumpGoroutines(), "\ngoroutine ") {
+					if strings.Contains(blk, "RpcServer") || strings.Contains(blk, "task.(*Manager)") || strings.Contains(blk, "environment.(*Manager)") || strings.Contains(blk, "schedulerState") {
+						dump += "goroutine " + blk + "\n"
+					}
+				}
 			}
-			h.c.Inconclusive(fmt.Sprintf("history %d: %s request (client %d step %d) did not return within %s; blocked goroutines of the core: %s", h.p.Index, req.Kind, cl, step, c04APITimeout, truncate(dump, 6000)))
+			h.c.Inconclusive(fmt.Sprintf("history %d: %s request (client %d step %d) did not return within %s; blocked goroutines of the core: %s", h.p.Index, req.Kind, cl, step, c04APITimeout, truncate(dump, 12000)))
 			return
 		}
 		if !h.s.CoreAlive() {
